@@ -44,6 +44,22 @@ fn main() {
                 "C" => suite_c::gen(&mut rng, &suite_c::Params { cases }),
                 "A" => suite_a::gen(&mut rng, &suite_a::Params { cases }),
                 "E" | "L" => suite_e::gen(&mut rng, &suite_e::Params { cases, max_ops }),
+                "X" => {
+                    // the engine script, with a commit after every second finalised block (more crash points)
+                    let mut k = 0;
+                    let mut v = Vec::new();
+                    for l in suite_e::gen(&mut rng, &suite_e::Params { cases, max_ops }) {
+                        let is_fin = l.starts_with("fin ") || l.starts_with("mine ");
+                        v.push(l);
+                        if is_fin {
+                            k += 1;
+                            if k % 2 == 0 {
+                                v.push("commit".to_string());
+                            }
+                        }
+                    }
+                    v
+                }
                 "K" => suite_k::gen(&mut rng, &suite_k::Params { cases, max_ops }),
                 "F" => suite_f::gen(&mut rng, &suite_f::Params { cases }),
                 "P" => suite_p::gen(&mut rng, &suite_p::Params { cases, big: max_ops }),
@@ -73,6 +89,7 @@ fn main() {
                 "K" => suite_k::exec(&lines, &mut out, &scratch),
                 "E" => suite_e::exec(&lines, &mut out, &scratch),
                 "L" => suite_e::exec_locks(&lines, &mut out, &scratch, &out_dir),
+                "X" => suite_e::exec_crash(&lines, &mut out, &scratch, std::path::Path::new(&ops_file), arg(&args, "--exhaustive").is_some()),
                 _ => {
                     eprintln!("unknown suite {}", suite);
                     std::process::exit(2);
@@ -80,6 +97,27 @@ fn main() {
             }
             out.finish(&out_dir, &suite);
             let _ = std::fs::remove_dir_all(&scratch);
+        }
+        "xchild" => {
+            let ops_file = arg(&args, "--ops").expect("--ops FILE");
+            let case = arg(&args, "--case").unwrap_or_default();
+            let upto: usize = arg(&args, "--upto").and_then(|s| s.parse().ok()).unwrap_or(0);
+            let crash_at: u64 = arg(&args, "--crash-at").and_then(|s| s.parse().ok()).unwrap_or(0);
+            let dir = PathBuf::from(arg(&args, "--dir").expect("--dir"));
+            let text = std::fs::read_to_string(&ops_file).expect("read ops");
+            let mut lines = Vec::new();
+            let mut on = false;
+            for l in text.lines() {
+                if l.starts_with("case ") {
+                    on = l.split(' ').nth(1) == Some(case.as_str());
+                    continue;
+                }
+                if on && !l.starts_with("read") && !l.starts_with("bad") && !l.starts_with("golden") && !l.trim().is_empty() && !l.starts_with('#') {
+                    lines.push(l.to_string());
+                }
+            }
+            std::panic::set_hook(Box::new(|_| {}));
+            suite_e::crash_child(&lines, upto, crash_at, &dir);
         }
         _ => {
             eprintln!("unknown mode {}", mode);
